@@ -279,24 +279,24 @@ Print Assumptions C18_tarjan_correct.
 (* ================= comparator soundness: what an accepted case line means ================= *)
 (* (group hI)  The check of this property accepts a case line when check_C18 (Check/C18.v) returns
    code 0 (it never returns the borderline code 1).  The theorems below say what that implies, with no
-   reference to the executable models: the line is 18 :: op :: rest with op in 1..10, [rest] is EXACTLY
+   reference to the executable models: the line is 18 :: op :: rest with op in 1..11, [rest] is EXACTLY
    the stated encoding of the case of that operation (graphs as n {deg target*}^n = enc_graph, integer
    lists count-prefixed = enc_Zs / enc_Zss; nothing is left over), the argument graph is well-formed, the
    "pure" flag is 1 and the arguments printed after the calls equal the arguments, and every observed
    value equals the specification-level value.  Proofs: Proofs/CheckC18*.v, composed with the
    model-meets-specification theorems above. *)
 From MM Require Import Check.C18 Proofs.CheckBase Proofs.CheckC18Base Proofs.CheckC18Marks Proofs.CheckC18Trav Proofs.CheckC18Scc
-  Proofs.CheckC18Graph Proofs.CheckC18Sub Proofs.CheckC18Dot Proofs.CheckC18.
+  Proofs.CheckC18Graph Proofs.CheckC18Sub Proofs.CheckC18Dot Proofs.CheckC18Hist Proofs.CheckC18.
 Local Open Scope Z_scope.
 
-(* the dispatch: every accepted line is a completely decoded case of one of the ten operations *)
+(* the dispatch: every accepted line is a completely decoded case of one of the eleven operations *)
 Theorem C18_check_ok_sound : forall line c tag pos diag,
   check_C18 line = verdict c tag pos diag -> c = 0 \/ c = 1 ->
   c = 0 /\ exists op rest, line = 18 :: op :: rest /\
     ((op = 1 /\ marks_case_ok rest) \/ (op = 2 /\ trav_case_ok rest) \/ (op = 3 /\ scc_case_ok rest) \/
      (op = 4 /\ bigraph_case_ok rest) \/ (op = 5 /\ equal_case_ok rest) \/ (op = 6 /\ simplify_case_ok rest) \/
      (op = 7 /\ keep_case_ok rest) \/ (op = 8 /\ remove_case_ok rest) \/
-     (op = 9 /\ dotstring_case_ok rest) \/ (op = 10 /\ sprint_case_ok rest)).
+     (op = 9 /\ dotstring_case_ok rest) \/ (op = 10 /\ sprint_case_ok rest) \/ (op = 11 /\ hist_case_ok rest)).
 Proof. exact check_ok_sound. Qed.
 Print Assumptions C18_check_ok_sound.
 
@@ -308,7 +308,7 @@ Print Assumptions C18_check_ok_sound.
    and add/remove the id; Test(i) = 1 iff i is in the set; Next(i) = the least member greater than i, or -1
    when there is none).
    op 2, PreOrder / PostOrder / Reverse / Euler, for every recorded root (at least one): a root outside
-   the graph has status 2 (a call panicked; nothing else is compared); a root r < n has status 0 and ONE
+   the graph has status 2 (a call panicked) and all its seven lists are empty; a root r < n has status 0 and ONE
    event sequence evs satisfying the depth-first specification from the empty visited set such that
    PreOrder = its Enter projection, PostOrder = its Exit projection, Reverse(PostOrder) - both the
    returned slice and the argument slice afterwards - = the reversed Exit projection, Euler's callback
@@ -326,7 +326,8 @@ Theorem C18_check_meaning_traversals : forall rest,
      exists g obs, rest = enc_graph g ++ Z.of_nat (length obs) :: flat_map enc_trav obs ++ 1 :: enc_graph g /\
        g_wf g /\ obs <> [] /\
        Forall (fun o =>
-         ((t_root o < 0 \/ Z.of_nat (length g) <= t_root o) -> t_status o = 2) /\
+         ((t_root o < 0 \/ Z.of_nat (length g) <= t_root o) ->
+            t_status o = 2 /\ t_pre o = [] /\ t_post o = [] /\ t_rev o = [] /\ t_rva o = [] /\ t_eul o = [] /\ t_ent o = [] /\ t_ext o = []) /\
          (0 <= t_root o < Z.of_nat (length g) ->
             t_status o = 0 /\
             exists evs V', dfs_node (g_out g) [] (Z.to_N (t_root o)) evs V' /\
@@ -340,6 +341,7 @@ Theorem C18_check_meaning_traversals : forall rest,
        g_wf g /\
        scc_spec g compsN /\
        hascof = (if flags =? 0 then 0 else 1) /\
+       (flags = 0 -> cof = []) /\
        (flags <> 0 -> length cof = length g /\
           forall c v, In v (comp_at compsN c) -> nth (N.to_nat v) cof (-1) = Z.of_nat c) /\
        length outsN = length compsN /\
@@ -354,8 +356,8 @@ Print Assumptions C18_check_meaning_traversals.
    targets in first-occurrence order, each once, and each observed weight equals (Qeq) the sum of the weights
    of the merged parallel edges - the multiplicity for a plain graph (weighted = 0); weights are the decoded
    float64 bit patterns (wadj_decodes).
-   ops 7, 8.  In general the observation is the model's value (status 2 exactly when the model panics,
-   else status 0 and the rows NodeMap / Out / EdgeMap are the rows of the model's result: sg_matches,
+   ops 7, 8.  In general the observation is the model's value (status 2 and no rows exactly when the model
+   panics, else status 0 and the rows NodeMap / Out / EdgeMap are the rows of the model's result: sg_matches,
    sg_row).  SubgraphKeep on a well-formed request (no negative number; keep_wf) and SubgraphRemove on
    EVERY request satisfy the specification: Keep returns the requested subgraph (keep_spec_concl = the
    conclusion of C18_subgraph_keep_spec), Remove returns the surviving nodes and edges in ascending order
@@ -364,8 +366,13 @@ Print Assumptions C18_check_meaning_traversals.
    ops 9, 10.  DotString: status 0, the observed bytes are dot_string of the argument AND the proved reader
    applied to the OBSERVED bytes restores the argument.  Sprint: either status 0 and the observed text is
    "digraph " ++ quoted name ++ " {\n" ++ body ++ "}\n" with body the rendering of dot_stmts (every node and
-   every edge named once, in order), or status 2 and some statement carries an attribute whose value has an
-   unsupported type. *)
+   every edge named once, in order), or status 2, no output bytes, and some statement carries an attribute whose
+   value has an unsupported type.
+   op 11, a history of k >= 1 calls (ops 2-8, 10) on ONE graph object: the line is k { len op sub }^k with
+   len = 1 + |sub|; there is one graph g such that every sub-line begins with the encoding of g (the graph
+   printed before every step is the graph printed before the first step) and every step satisfies the case
+   predicate of its operation on its sub-line - which includes that the argument printed after the call is the
+   argument printed before it, so the object is the same graph throughout the history. *)
 Theorem C18_check_meaning_graphops : forall rest,
   (bigraph_case_ok rest <-> exists g insN,
      rest = enc_graph g ++ 0 :: enc_Zss (map ZsN insN) ++ enc_graph g ++ 1 :: 1 :: enc_graph g /\
@@ -379,7 +386,7 @@ Theorem C18_check_meaning_graphops : forall rest,
   (simplify_case_ok rest <-> exists g weighted ws rg rws wg obs,
      rest = enc_graph g ++ weighted :: enc_Zss ws ++ 0 :: enc_graph rg ++ enc_Zss rws ++ 1 :: enc_graph g /\
      g_wf g /\
-     (if weighted =? 0 then wg = unit_weights g
+     (if weighted =? 0 then wg = unit_weights g /\ ws = []
       else Forall2 (fun tw a => wadj_decodes (fst tw) (snd tw) a) (combine g ws) wg /\ length ws = length g) /\
      map (map fst) wg = g /\
      Forall2 (fun tw a => wadj_decodes (fst tw) (snd tw) a) (combine rg rws) obs /\ length rws = length rg /\
@@ -423,7 +430,15 @@ Theorem C18_check_meaning_graphops : forall rest,
      ((status = 0 /\ (forall s a, In s stmts -> In a (stmt_attrs s) -> snd a <> AOther) /\
        exists body, render_all stmts = Some body /\
          obs = ZsN ([100; 105; 103; 114; 97; 112; 104; 32] ++ dot_string (d_name d) ++ [32; 123; 10] ++ body ++ [125; 10])%N)
-      \/ (status = 2 /\ exists s a, In s stmts /\ In a (stmt_attrs s) /\ snd a = AOther))).
+      \/ (status = 2 /\ obs = [] /\ exists s a, In s stmts /\ In a (stmt_attrs s) /\ snd a = AOther))) /\
+  (hist_case_ok rest <-> exists (steps : list (Z * list Z)) g,
+     rest = Z.of_nat (length steps) :: flat_map (fun s => Z.of_nat (S (length (snd s))) :: fst s :: snd s) steps /\
+     steps <> [] /\
+     Forall (fun s =>
+       (exists r, snd s = enc_graph g ++ r) /\
+       ((fst s = 2 /\ trav_case_ok (snd s)) \/ (fst s = 3 /\ scc_case_ok (snd s)) \/ (fst s = 4 /\ bigraph_case_ok (snd s)) \/
+        (fst s = 5 /\ equal_case_ok (snd s)) \/ (fst s = 6 /\ simplify_case_ok (snd s)) \/ (fst s = 7 /\ keep_case_ok (snd s)) \/
+        (fst s = 8 /\ remove_case_ok (snd s)) \/ (fst s = 10 /\ sprint_case_ok (snd s)))) steps).
 Proof. exact case_meaning_graphops. Qed.
 Print Assumptions C18_check_meaning_graphops.
 
@@ -462,7 +477,11 @@ Example C18_check_ok_examples :
   ok [18; 9; 3; 97; 34; 10; 0; 7; 34; 97; 92; 34; 92; 110; 34] /\
   bad [18; 9; 3; 97; 34; 10; 0; 6; 34; 97; 34; 92; 110; 34] /\
   bad [18; 10; 1; 1; 0; 4; 0; 13; 123; 34; 0; 0; 0; 0; 1; 1; 1; 0; 0; 47; 100; 105; 103; 114; 97; 112; 104; 32; 34; 0; 13; 92; 123; 92; 34; 34; 32; 123; 10; 110; 48; 32;
-       91; 108; 97; 98; 101; 108; 61; 34; 48; 34; 93; 59; 10; 110; 48; 32; 45; 62; 32; 110; 49; 59; 10; 125; 10; 1; 1; 1; 0].
+       91; 108; 97; 98; 101; 108; 61; 34; 48; 34; 93; 59; 10; 110; 48; 32; 45; 62; 32; 110; 49; 59; 10; 125; 10; 1; 1; 1; 0] /\
+  (* op 11 (two steps cut out of a real history on the one-node graph: SCC, then MakeBiGraph); the second step on a
+     different graph is rejected *)
+  ok [18; 11; 2; 16; 3; 1; 0; 3; 0; 1; 1; 0; 1; 1; 0; 1; 0; 1; 1; 0; 12; 4; 1; 0; 0; 1; 0; 1; 0; 1; 1; 1; 0] /\
+  bad [18; 11; 2; 16; 3; 1; 0; 3; 0; 1; 1; 0; 1; 1; 0; 1; 0; 1; 1; 0; 8; 4; 0; 0; 0; 0; 1; 1; 0].
 Proof.
   cbv zeta. repeat split; vm_compute; repeat eexists.
 Qed.
